@@ -122,7 +122,10 @@ def collect(rep, vals, pid, nontrivial=None, key=None, is_first=lambda ev: ev.ge
         foreign = set()
         for v in r.verdicts:
             # <<"V", line, case, property, reason>>
-            if v[3] != pid:
+            if v[3] == "DRIFT":
+                # the implementation layer of the spec no longer predicts the code (not a verdict)
+                rep.extra["impl_model_drift"] = rep.extra.get("impl_model_drift", 0) + 1
+            elif v[3] != pid:
                 foreign.add(int(v[2]))
             else:
                 bad_lines[int(v[1])] = v[4]
@@ -337,6 +340,86 @@ def check_linear(pid, tier, seed, scratch, replay):
         rep.add_mc("MC_Linear", mc2.result())
     collect(rep, vals, pid, nontrivial=lambda ev: len(ev["bs"]) > 0, key=lambda ev: [ev["raw"], ev["bs"]], is_first=lambda ev: True)
     rep.extra["enumerated_by_tlc"] = sum(vlib.count_lines(t) for t in traces if "linrand" not in t)
+    return rep.finish()
+
+
+# ------------------------------------------------------------------------------------------------
+# C17 / C18: delivery schedules and faults
+# ------------------------------------------------------------------------------------------------
+
+@register("C17", "C18")
+def check_io(pid, tier, seed, scratch, replay):
+    import concurrent.futures as cf
+    thorough = tier == "thorough"
+    rep = Report(pid, tier, seed, level="model_checking" if pid == "C17" else "fault_enumeration")
+    drive = vlib.build_harness(scratch)
+    faults = pid == "C18"
+    L = (5 if thorough else 4)
+    gparts = 6 if thorough else 3
+    if pid == "C17":
+        rep.rule = ("(i) TLC explores the scanner state machine for every document of length <= L over {CR,LF,x} under every read "
+                    "size / zero-length read / data-with-EOF and generates every (document, schedule) pair, which is replayed on "
+                    "the real split function and block reader (hooks VerifScanLines / VerifReadNBytes) and judged by TLC against "
+                    "Lines(doc) / Blocks(doc) and against the implementation layer (drift). (ii) end to end on every reader: "
+                    "repository samples, their LF/CRLF/CR variants, truncations, large generated documents; every single split "
+                    "point (sampled on documents > 2.5 kB), one-byte, half, random, data-with-EOF, zero-length and 4096/65536-aligned "
+                    "reads; TLC validates that all parses of a document return the first observed result. "
+                    "Non-trivial = distinct (document, schedule) with at least two reads.")
+    else:
+        rep.rule = ("(i) as C17(i) with a non-EOF error injected at every offset (with and without data in the failing read) and "
+                    "over-long lines in the model (MAXTOK=3); invariants FaultReported / NoSilentTruncation / LongLineReported. "
+                    "(ii) end to end: every fault offset 0..len of every parseable sample (TTML: inside the root element), every "
+                    "fault offset of every writer's output, unfaulted write = complete document, lines of 2^16, 2^16+1, 70000, 2^20 "
+                    "bytes, file helpers on missing / uncreatable paths. Non-trivial = distinct fault points.")
+    rep.assumptions = ["a failed stream keeps failing (the injected error is sticky), as io.Reader implementations do",
+                       "documents: repository testdata and harness-made variants; teletext streams are added by the C06 builder when present"]
+
+    def run_gen(p):
+        out = scratch.path("scancases.%d.ndjson" % p)
+        r = tlc(scratch, "GenScanner", "GenScanner.cfg", env=dict(GEN_L=L, GEN_PART=p, GEN_PARTS=gparts, GEN_OUT=out,
+                                                                    GEN_FAULTS="1" if faults else "0"), heap="2g", timeout=1500)
+        require_ok(r, "GenScanner part %d" % p)
+        tr = scratch.path("trace.scan.%d.ndjson" % p)
+        vlib.run_drive(drive, ["scan", "-cases", out, "-out", tr, "-n0", str(p * 10000000)])
+        return tr
+
+    dparts = 8
+
+    def run_e2e(p):
+        tr = scratch.path("trace.e2e.%d.ndjson" % p)
+        if faults:
+            args = ["faults", "-out", tr, "-seed", str(seed), "-part", str(p), "-parts", str(dparts),
+                    "-maxall", "3000" if thorough else "700"]
+        else:
+            args = ["deliver", "-out", tr, "-seed", str(seed), "-part", str(p), "-parts", str(dparts),
+                    "-nrand", "40" if thorough else "5", "-maxsplit", "6000" if thorough else "1500"]
+        if thorough:
+            args += ["-large"] + ([] if faults else ["-scale", "3", "-nearp", "8"])
+        elif not faults:
+            args.append("-large")
+        vlib.run_drive(drive, args)
+        return tr
+
+    with cf.ThreadPoolExecutor(max_workers=vlib.NCPU) as ex:
+        mcs = [("MC_Scanner_cur_T.cfg" if thorough else "MC_Scanner_cur.cfg"), "MC_ScannerBlocks_cur.cfg"]
+        if faults:
+            mcs.append("MC_Scanner_long.cfg")
+        mcf = [ex.submit(lambda c=c: (c, require_ok(tlc(scratch, "ScannerMC", c, workers=3, timeout=2400), c))) for c in mcs]
+        gf = [ex.submit(run_gen, p) for p in range(gparts)]
+        ef = [ex.submit(run_e2e, p) for p in range(dparts)]
+        t1 = [f.result() for f in gf]
+        t2 = [f.result() for f in ef]
+        v1 = validate(ex, scratch, t1, "TraceScanner", "TraceScanner.cfg", per_jvm=3000, extra_env={"PROP": pid})
+        v2 = validate(ex, scratch, t2, "TraceIO", "TraceIO.cfg", per_jvm=6000)
+        for f in mcf:
+            c, r = f.result()
+            rep.add_mc(c, r)
+    collect(rep, v1, pid, nontrivial=lambda ev: len(ev["sched"]) >= 2 or ev["sched"][:1] and ev["sched"][0]["k"] != "ok",
+            key=lambda ev: [ev["kind"], ev["doc"], ev["len"], ev["sched"]], is_first=lambda ev: True)
+    collect(rep, v2, pid, nontrivial=lambda ev: ev["kind"] != "deliver" or ev["sched"] != "all-at-once",
+            key=lambda ev: [ev["kind"], ev["fmt"], ev["doc"], ev["sched"], ev["k"], ev["n"]], is_first=lambda ev: True)
+    rep.extra["enumerated_by_tlc"] = sum(vlib.count_lines(t) for t in t1)
+    rep.extra["end_to_end_events"] = sum(vlib.count_lines(t) for t in t2)
     return rep.finish()
 
 
